@@ -311,14 +311,49 @@ def r7_shared(prog, run):
         run.ok(rid, dec.loc(), 'MESSAGE-INTEGRITY is compared in full')
     rr = prog.fn('QXmppUdpTransport::readyRead')
     emits = [i for i, n in rr.calls() if rr.cname(n).endswith('::datagramReceived')]
+
+    def sized_read_of(g, pidx=None):
+        """(read call id, True) when g reads a datagram into a buffer that is resized to the pending size right before (same block); the buffer is g's parameter pidx
+        when given.  (read id, False) when it reads without that; None when it does not read"""
+        rds = [i for i, n in g.calls() if g.cname(n).endswith('::readDatagram')]
+        if not rds:
+            return None
+        for i, n in g.calls():
+            if g.cname(n).endswith('::resize') and n.get('obj') is not None and n.get('args') and 'pendingDatagramSize' in g.fmt(n['args'][0], inline=True):
+                o = g.nodes[g.skip(n['obj'])]
+                if pidx is not None and not (o.get('vk') == 'param' and o.get('pidx') == pidx):
+                    continue
+                if g.node_dominates(i, rds[0]) and g.pos(i) and g.pos(rds[0]) and g.pos(i)[0] == g.pos(rds[0])[0]:
+                    return rds[0], True
+        return rds[0], False
+    # the read: in the slot itself, or in a same-file helper that is handed the buffer by reference
     reads = [i for i, n in rr.calls() if rr.cname(n).endswith('::readDatagram')]
-    if not emits or not reads:
-        raise AnalysisBroken('C15.R7: readDatagram / datagramReceived not found in QXmppUdpTransport::readyRead')
+    helper_reads = []
+    if not reads:
+        for i, n in rr.calls():
+            if n.get('op'):
+                continue
+            for g in prog.callee_fns(rr, n):
+                if g.entry is None or g.file != rr.file:
+                    continue
+                for k, a in enumerate(n.get('args', [])):
+                    an = rr.nodes[rr.skip(a)]
+                    if an['k'] == 'var' and 'QByteArray' in (an.get('t') or ''):
+                        r_ = sized_read_of(g, k)
+                        if r_ is not None:
+                            helper_reads.append((i, an.get('decl'), r_[1]))
+    if not emits or not (reads or helper_reads):
+        raise AnalysisBroken('C15.R7: readDatagram (also through a helper) / datagramReceived not found in QXmppUdpTransport::readyRead')
     run.instance(rid)
     buf = rr.nodes[rr.skip(rr.nodes[emits[0]]['args'][0])]
     ok = False
     why = 'the emitted buffer is not sized per datagram'
-    if buf['k'] == 'var':
+    if buf['k'] == 'var' and helper_reads:
+        for i, decl, sized in helper_reads:
+            same_block = rr.pos(i) and rr.pos(emits[0]) and rr.pos(i)[0] == rr.pos(emits[0])[0]
+            if decl == buf.get('decl') and sized and rr.node_dominates(i, emits[0]) and same_block:
+                ok = True
+    elif buf['k'] == 'var':
         # (a) resized to the pending size on every iteration, before the read
         for i, n in rr.calls():
             if rr.cname(n).endswith('::resize') and n.get('obj') is not None and rr.nodes[rr.skip(n['obj'])].get('decl') == buf.get('decl'):
@@ -351,7 +386,7 @@ def r7_shared(prog, run):
             run.instance(rid)
             cap = n['args'][1]
             fits = 'pendingDatagramSize' in f.fmt(cap, inline=True)
-            objs = [f.nodes[j].get('decl') for a in n['args'][:2] for j in f.walk(a) if f.nodes[j]['k'] == 'var' and f.nodes[j].get('vk') == 'local']
+            objs = [f.nodes[j].get('decl') for a in n['args'][:2] for j in f.walk(a) if f.nodes[j]['k'] == 'var' and f.nodes[j].get('vk') in ('local', 'param')]
             for j, m in f.calls():
                 if f.cname(m).endswith('::resize') and m.get('obj') is not None and f.nodes[f.skip(m['obj'])].get('decl') in objs and m.get('args') \
                         and 'pendingDatagramSize' in f.fmt(m['args'][0], inline=True) and f.node_dominates(j, i) and f.pos(j) and f.pos(i) and f.pos(j)[0] == f.pos(i)[0]:
